@@ -212,7 +212,20 @@ def run(ctx):
                 ctx.violation("stream %s could not run: %s" % (stream, r["error"]), {"kind": "tie-broken", "correspondence": stream, "detail": r["error"]}, nofail=True)
             continue
         classes = {}
-        for idx, case, exp, got in r["disagreements"]:
+        # run_stream keeps only the first 50 disagreements; the (frequent) collection defects would hide rarer classes,
+        # so every answer file of the stream is scanned here
+        dis = []
+        for k in range(16):
+            base = os.path.join(ctx.work, "%s.%d" % (stream, k))
+            if not os.path.exists(base + ".got"):
+                continue
+            with open(base + ".cases", errors="replace") as fc, open(base + ".got", errors="replace") as fg:
+                for i, (c, g) in enumerate(zip(fc, fg)):
+                    g = g.rstrip("\n")
+                    if g != "ok":
+                        dis.append((i, c.rstrip("\n"), "ok", g))
+        corr[stream]["disagreements"] = len(dis)
+        for idx, case, exp, got in dis:
             if not got.startswith("bad"):
                 if "other" not in seen:
                     seen.append("other")
